@@ -19,6 +19,36 @@ CHECKS = {
    text="Generated-input search for aborts. Every parser-accepted file (feature-directed list: no/odd/huge pragmas, free functions, literals beyond u32..2^256 and with exponents, zero-argument calls, 254..600 functions before a constructor, deep and wide files; plus tape-decoded random programs with arbitrary pragma placement, deep and wide streams) is run through all 30 analyze_for_* entry points under catch_unwind, in a build with overflow checks/debug assertions and in one without. A panic is a violation keyed by its source location. Exploration: totality is only shown on what was generated.",
    note="Trusted: solang-parser (inputs it rejects or panics on are outside the domain), the panic hook/catch_unwind capture, proptest.",
    design="DESIGN.md section 5 C04"),
+ "C03": dict(
+   technique="property-based testing: model-based comparison of analyze_dir with the union of per-file analyses over generated directory trees and creation (= listing) orders",
+   text="Generated-input search. Tape-decoded directory trees (depth <= 3, eligible files from a pool where most patterns fire, inert files, same base names in several directories) are created on tmpfs in a generated creation order, which fixes the listing order; for a generated pattern subset and order, analyze_dir of all three categories must equal, as a multiset of (pattern, file, line set), the harness' own per-file analysis of the spec. A sample of trees also goes through the binary and the report parser. Exploration over trees and listing orders.",
+   note="Trusted: analyze_for_* as the per-file reference named by the property, the tree materialiser, tmpfs listing order only for classification.",
+   design="DESIGN.md section 5 C03"),
+ "C10": dict(
+   technique="property-based testing: reference slot model, bounded-exhaustive size sequences and type keywords, generated contracts/structs with an exact permutation optimum",
+   text="Generated-input search. storage_slots_used is compared with a position-based slot model on every sequence of length <= 4 (thorough 5) over the 32 byte-granular sizes (complete) and random sequences up to 64; get_type_size on the complete keyword list; generated files with several contracts/structs are checked against the exact optimum over all member permutations (reported => improvable, optimal => not reported, sorting saves => reported). Exploration, complete on the listed finite sub-domains.",
+   note="Trusted: the slot model (written from Solidity's layout rule as quoted in the property), the size table in the property statement.",
+   design="DESIGN.md section 5 C10"),
+ "C11": dict(
+   technique="property-based testing: round trip of generated findings maps through an independent report parser; sampled end-to-end runs of the binary",
+   text="Generated-input search. proptest generates findings maps for each category (any pattern subset and insertion order, adversarial file names, any line numbers); the rendered report is read back by an independent parser with a hand-written fingerprint per pattern section and must reproduce exactly the multiset of (pattern, file, line), each entry under its own section, a section iff findings. Binary runs on generated trees are compared the same way. Exploration.",
+   note="Trusted: the report parser and its 30 fingerprints (checked unique over all section texts).",
+   design="DESIGN.md section 5 C11"),
+ "C12": dict(
+   technique="property-based testing: invariants of the parsed report (totals, severity headings, category parts) over generated findings maps; all 16 vulnerability subsets enumerated",
+   text="Generated-input search. For every subset of the four vulnerability patterns (all 16, complete) with random multiplicities, and random optimisation maps: printed total = number of listed entries, a severity heading is present iff a finding of that severity exists, every vulnerability sits under its own severity; binary runs on generated trees check that a category part is present iff that category has findings. Exploration, complete over the 16 subsets.",
+   note="Trusted: the report parser; severity table from the property statement.",
+   design="DESIGN.md section 5 C12"),
+ "C13": dict(
+   technique="property-based testing: metamorphic relation (permutation of insertion/discovery order, fresh hash seeds, separate processes) with byte equality as oracle",
+   text="Generated-input search. The same findings set is rendered 6 times from fresh HashMaps (new hasher keys) filled in permuted insertion order with permuted file vectors; the same tree content is created in 4 different orders (different listing orders) and analysed by 4 separate processes; all outputs must be byte-identical. Exploration: processes and hash seeds are sampled.",
+   note="Trusted: std HashMap RandomState gives each fresh map new keys; tmpfs listing order depends on creation order (observed and counted).",
+   design="DESIGN.md section 5 C13"),
+ "C16": dict(
+   technique="property-based testing: metamorphic relation (delete every non-eligible file) plus model comparison with an independent eligibility predicate over generated trees",
+   text="Generated-input search. Trees mix eligible files with inert ones of every name class (*.t.sol in any case, .SOL, .sol in the middle, no extension) and content class (unparseable, invalid UTF-8, empty, valid program with findings) at every depth; analyze_dir(tree) must equal analyze_dir(tree without inert files) and the union over eligible files, and must not fail; binary runs must exit 0. Exploration.",
+   note="Trusted: eligibility predicate from the property statement; names the statement does not decide are not generated (counted).",
+   design="DESIGN.md section 5 C16"),
 }
 
 NOT_YET = {
